@@ -1347,7 +1347,7 @@ pub fn run_seq(ctx: &Ctx) {
 /// The pending StartOfMessage must still be released by the first idle moment after its deadline.
 pub fn run_hold(ctx: &Ctx) {
     let mut out = Out::create(&ctx.out_dir, "sighold");
-    let kinds = ["keyup_abort", "prefix_destroyed", "blips", "noise_burst", "tone_burst", "quiet", "late_keyup", "garbage_burst"];
+    let kinds = ["keyup_abort", "prefix_destroyed", "blips", "noise_burst", "tone_burst", "quiet", "late_keyup", "garbage_burst", "long_valid_carrier"];
     let n = if ctx.tier_thorough { 1600 } else { 48 };
     for i in 0..n {
         if !ctx.want(i) {
@@ -1409,6 +1409,17 @@ pub fn run_hold(ctx: &Ctx) {
                 tone(&mut a, if rng.chance(1, 2) { MARK_HZ } else { SPACE_HZ }, 0.2 + rng.unit() * 1.5);
                 a.silence(4.0, &mut rng);
             }
+            "long_valid_carrier" => {
+                // a stuck encoder inside the hold: preamble, ZCZC, then valid characters for 6..14 s
+                // (a legal frame ends after 252 bytes = 4.1 s: the pending header must not wait for the carrier to stop)
+                a.silence(0.2 + rng.unit() * 0.9, &mut rng);
+                let secs = 6.0 + rng.unit() * 8.0;
+                let nbytes = (secs * BAUD / 8.0) as usize;
+                let mut p = b"ZCZC-".to_vec();
+                p.extend((0..nbytes).map(|_| *rng.pick(CALL_CHARS)));
+                a.burst(16, &p, &mut rng);
+                a.silence(4.0, &mut rng);
+            }
             "garbage_burst" => {
                 // a complete burst of something else inside the hold: legitimately re-arms the hold
                 a.silence(0.2 + rng.unit() * 0.9, &mut rng);
@@ -1428,7 +1439,7 @@ pub fn run_hold(ctx: &Ctx) {
         let (op, imp) = rx_op(rate, &taps, &evs);
         out.op(&op, &imp, true);
         let evline = show_events(&evs);
-        let expect = if kind == "garbage_burst" { "-".to_owned() } else { hex(&h) };
+        let expect = if kind == "garbage_burst" || kind == "long_valid_carrier" { "-".to_owned() } else { hex(&h) };
         out.spec(&format!("spec.sig c08hold {};{} [{}] => {}", rate, expect, label, evline));
         out.spec(&format!("spec.sig c04 {} [{}] => {}", rate, label, evline));
         out.spec(&format!("spec.sig c13life - [{}] => {}", label, evline));
